@@ -1954,10 +1954,36 @@ def load_rebuild(rep, ex: Explorer):
         if isinstance(n, _ast.Assign) and len(n.targets) == 1 and isinstance(n.targets[0], _ast.Name) and isinstance(n.value, (_ast.List, _ast.Tuple)) \
                 and all(isinstance(e, _ast.Constant) and isinstance(e.value, str) for e in n.value.elts):
             lists[n.targets[0].id] = [e.value for e in n.value.elts]
+    def strings_of(e, depth=0):
+        """the attribute names an expression enumerates (a superset when a comprehension filters them)"""
+        if depth > 5:
+            return None
+        if isinstance(e, (_ast.List, _ast.Tuple, _ast.Set)) and all(isinstance(x, _ast.Constant) and isinstance(x.value, str) for x in e.elts):
+            return [x.value for x in e.elts]
+        if isinstance(e, _ast.Name):
+            if e.id in lists:
+                return lists[e.id]
+            for m in _ast.walk(lo.node):
+                if isinstance(m, _ast.Assign) and any(isinstance(t, _ast.Name) and t.id == e.id for t in m.targets):
+                    r = strings_of(m.value, depth + 1)
+                    if r is not None:
+                        return r
+            g = prog.modules[lo.module].globals_.get(e.id)
+            return strings_of(g, depth + 1) if g is not None else None
+        if isinstance(e, _ast.Attribute):
+            ca = prog.lookup_class_attr(PO, e.attr)
+            return strings_of(ca[1], depth + 1) if ca is not None else None
+        if isinstance(e, (_ast.ListComp, _ast.GeneratorExp, _ast.SetComp)) and len(e.generators) == 1 and isinstance(e.elt, _ast.Name) \
+                and isinstance(e.generators[0].target, _ast.Name) and e.generators[0].target.id == e.elt.id:
+            return strings_of(e.generators[0].iter, depth + 1)
+        if isinstance(e, _ast.Call) and isinstance(e.func, _ast.Name) and e.func.id in ("list", "tuple", "set", "frozenset", "sorted") and len(e.args) == 1:
+            return strings_of(e.args[0], depth + 1)
+        return None
+
     for n in _ast.walk(lo.node):
         if isinstance(n, _ast.For) and isinstance(n.target, _ast.Name):
             src = n.iter
-            names = lists.get(src.id) if isinstance(src, _ast.Name) else ([e.value for e in src.elts] if isinstance(src, (_ast.List, _ast.Tuple)) and all(isinstance(e, _ast.Constant) for e in src.elts) else None)
+            names = strings_of(src)
             for c in _ast.walk(n):
                 if isinstance(c, _ast.Call) and isinstance(c.func, _ast.Name) and c.func.id == "setattr" and len(c.args) == 3 and isinstance(c.args[2], _ast.Constant) and c.args[2].value is None \
                         and isinstance(c.args[1], _ast.Name) and c.args[1].id == n.target.id:
